@@ -430,6 +430,21 @@ func c04worker(c *hx.Ctx) int {
 			}
 		}
 	}
+	// ---- layer 1c: what an absent member with a default leaves behind, in front of required checks
+	for _, d := range []string{`{"properties":{"a":{"default":1}}}`, `{"properties":{"a":{"type":"integer","default":1},"b":{"default":"x"}}}`, `{"properties":{"a":{"default":1}},"required":["a"]}`,
+		`{"properties":{"required":{"default":false},"a":{"default":[]}},"additionalProperties":false}`} {
+		for _, di := range []string{`{}`, `{"b":2}`, `{"a":3}`, `{"c":1}`} {
+			if !mine() {
+				continue
+			}
+			op1 := Op{Kind: "against", Def: d, Val: di}
+			for _, r := range []string{`{"required":["a"]}`, `{"required":["a","b"]}`, `{"required":["required"],"properties":{"required":{"enum":[true]}}}`, `{"properties":{"a":{"type":"integer"}},"required":["a"]}`} {
+				for _, it := range []string{`{}`, `{"b":1}`, `{"a":1}`} {
+					exploreHistory([]Op{op1, {Kind: "against", Def: r, Val: it}}, 1, 1, rep, sets, "pair")
+				}
+			}
+		}
+	}
 	// ---- layer 1b: compositions as dirtying calls in front of the observers
 	for _, a := range c04compositions() {
 		if !mine() {
